@@ -1086,6 +1086,39 @@ func oracleC17(p *Pair, env *Env, a [][]byte) *Failure {
 		} else if !re.MatchString(pre + long + suf) {
 			return fail("the long entry itself is missing", "")
 		}
+	case "stdin-total":
+		// the whole input counts, not only its longest line: an assembly of n bytes made of ordinary lines (comments, for
+		// the most part), on stdin and as a file, carries its first and its last entries
+		var sb2 strings.Builder
+		sb2.WriteString("zzq0\n")
+		for k := 0; sb2.Len() < n; k++ {
+			fmt.Fprintf(&sb2, "##! note %07d %s\n", k, strings.Repeat("-", 70))
+		}
+		sb2.WriteString("zzq1\nzzq2\n")
+		input := []byte(sb2.String())
+		sbx := mkSandbox(env)
+		defer os.RemoveAll(sbx)
+		_ = Tree{"regex-assembly/942100.ra": input, "regex-assembly/include/": nil}.write(sbx)
+		for _, how := range []string{"stdin", "file"} {
+			var c cliResult
+			if how == "stdin" {
+				c = runCLI(env, sbx, input, "-l", "disabled", "regex", "generate", "-")
+			} else {
+				c = runCLI(env, sbx, nil, "-l", "disabled", "regex", "generate", "942100")
+			}
+			if c.exit != 0 {
+				continue // loud failure is acceptable
+			}
+			re, err := regexp.Compile(`\A(?:` + string(c.stdout) + `)\z`)
+			if err != nil {
+				return fail("output does not compile ("+how+")", err.Error())
+			}
+			for _, w := range []string{"zzq0", "zzq1", "zzq2"} {
+				if !re.MatchString(w) {
+					return fail("entry "+w+" is missing from the generated alternation (input on "+how+", "+fmt.Sprint(len(input))+" bytes in all)", string(c.stdout))
+				}
+			}
+		}
 	case "rules-file":
 		// update and compare read the rules file: a rule whose operand line is long, before / after / instead of the
 		// addressed one
@@ -1170,6 +1203,9 @@ func genC17(r *rand.Rand, tier string, env *Env) []Case {
 	}
 	var cases []Case
 	sites := []string{"generate", "generate-defined", "generate-include-defined", "generate-include-twice", "generate-include", "generate-include-prefixed", "generate-include-suffixed", "generate-nested-include", "generate-replace-suffixes", "generate-include-except", "generate-exclude-file", "format", "renumber", "copyright", "rules-file"}
+	for _, total := range []int{1<<20 - 4096, 1<<20 + 4096, 3 << 20} {
+		cases = append(cases, Case{Kind: "input-total-size", Oracles: []Op{{"c17.carry", [][]byte{[]byte("stdin-total"), []byte(fmt.Sprint(total)), []byte("middle"), []byte("1")}}}})
+	}
 	for _, site := range sites {
 		for _, n := range lengths {
 			if (site == "generate" || site == "generate-defined") && n > 140000 && n != 262144 {
